@@ -383,6 +383,48 @@ func init() {
 		fmt.Fprintf(&b, "Definition gen_replacement_source_copied : bool := %s.\n", coqBool(copied))
 		fmt.Fprintf(&b, "Definition gen_replacement_source_return_recognised : bool := %s.\n\n", coqBool(recognised))
 
+		// ---- replacement.setFieldValue: after the text is copied into a scalar target, is the target probed with
+		// Decode and made a string when the text cannot be decoded under the tag it kept?
+		//   if err := targetField.YNode().Decode(&probe); err != nil { targetField.YNode().Tag = yaml.NodeTagString }
+		fd = c10FindFunc(f, "setFieldValue", "")
+		if fd == nil {
+			return "", fmt.Errorf("setFieldValue not found")
+		}
+		retags := false
+		ast.Inspect(fd.Body, func(n ast.Node) bool {
+			is, ok := n.(*ast.IfStmt)
+			if !ok || is.Init == nil || is.Else != nil || len(is.Body.List) != 1 {
+				return true
+			}
+			init, ok := is.Init.(*ast.AssignStmt)
+			if !ok || len(init.Rhs) != 1 {
+				return true
+			}
+			ce, ok := init.Rhs[0].(*ast.CallExpr)
+			if !ok {
+				return true
+			}
+			if sel, ok := ce.Fun.(*ast.SelectorExpr); !ok || sel.Sel.Name != "Decode" {
+				return true
+			}
+			cond, ok := is.Cond.(*ast.BinaryExpr)
+			if !ok || cond.Op.String() != "!=" {
+				return true
+			}
+			as, ok := is.Body.List[0].(*ast.AssignStmt)
+			if !ok || len(as.Lhs) != 1 || len(as.Rhs) != 1 {
+				return true
+			}
+			l, okl := as.Lhs[0].(*ast.SelectorExpr)
+			r, okr := as.Rhs[0].(*ast.SelectorExpr)
+			if okl && okr && l.Sel.Name == "Tag" && r.Sel.Name == "NodeTagString" {
+				retags = true
+			}
+			return true
+		})
+		fmt.Fprintf(&b, "(* setFieldValue: a scalar target whose kept tag cannot decode the written text becomes a string *)\n")
+		fmt.Fprintf(&b, "Definition gen_replacement_retags_undecodable : bool := %s.\n\n", coqBool(retags))
+
 		// ---- ImageTagTransformer.Transform: do the legacy filter and the field-spec filter share a Visited set?
 		_, f, err = c10ParseFile(filepath.Join(repo, "api/internal/builtins/ImageTagTransformer.go"))
 		if err != nil {
